@@ -73,6 +73,8 @@ func calculateCurrentAge(
 	ageVal := 0
 	if ageStr := h.Get("Age"); ageStr != "" {
 		ageVal, _ = strconv.Atoi(ageStr)
+		// Saturate huge or negative values instead of overflowing time.Duration.
+		ageVal = min(max(ageVal, 0), maxDeltaSeconds)
 	}
 	apparentAge := max(responseTime.Sub(date), 0)
 	responseDelay := max(responseTime.Sub(requestTime), 0)
@@ -137,11 +139,13 @@ func (f *freshnessCalculator) CalculateFreshness(
 
 	// Freshness lifetime (private cache: ignore s-maxage)
 	usefulLife := time.Duration(0)
+	hasMaxAge := false
 	if maxAge, ok := resCC.MaxAge(); ok && maxAge >= 0 {
 		usefulLife = maxAge // Response is fresh for max-age seconds
+		hasMaxAge = true    // max-age (even 0) takes precedence over Expires and heuristics
 	}
 
-	if usefulLife == 0 {
+	if !hasMaxAge {
 		expires, found, valid := entry.ExpiresHeader()
 		switch {
 		case valid && expires.After(date):
